@@ -137,6 +137,20 @@ func (ex *Exec) vcall(th *Thread, caller *Frame, name string, args []Value, fini
 	case "vCover":
 		ex.covers[ex.strArg(args[0])] = true
 		finish(nil)
+	case "vKnownFinding":
+		// reached on a feasible path: reported by the check driver against known_findings.json
+		id := ex.strArg(args[0])
+		if !ex.covers["KF:"+id] {
+			ex.covers["KF:"+id] = true
+			ex.kfWitness = append(ex.kfWitness, id)
+			if _, claimed := ex.P.kfClaim.LoadOrStore(ex.entry.Name()+"|"+id, true); !claimed {
+				if ex.kfModels == nil {
+					ex.kfModels = map[string]map[string]interface{}{}
+				}
+				ex.kfModels[id] = ex.model(ex.ctx.True)
+			}
+		}
+		finish(nil)
 	case "vObserve":
 		finish(nil)
 	case "vEvent":
